@@ -41,7 +41,9 @@ package crhttp
 //@   loop 2 invariant L5 [C17]: len(servers) == rangeindex2 + 1 && isType(opts[rangeindex1 + 1], "*ndp.RecursiveDNSServer") && ranged(2) == as(opts[rangeindex1 + 1], "*ndp.RecursiveDNSServer").Servers
 //@   loop 2 invariant L2 [C17]: 0 <= rangeindex2 + 1 && rangeindex2 + 1 <= len(ranged(2)) && 0 <= rangeindex1 + 1 && rangeindex1 + 1 < len(opts)
 //@   opt safety [C17]
-//@   opt frame [C17]
+// the debug API only reads the RA it renders: it never alters the configuration the
+// advertiser builds its RAs from (C01)
+//@   opt frame [C17,C01]
 
 //@ func packRA
 //@   requires P1: ra != nil && prefValid(ra.RouterSelectionPreference) && optsKnown(ra.Options)
